@@ -37,7 +37,7 @@ type Scenario struct {
 	KillK int         `json:"kill_k,omitempty"` // set in replay files: the failing boundary
 }
 
-const rule = "cases = (scenario, k): scenarios are in-place file, in-place tree (sequential -v and the default worker pool), separate output file, output directory, bundle (also onto one of its inputs) and --sync invocations over files of all types with sizes 0 B, small, 64 KB+1 and 1 MB, incl. files the minifier rejects; for every scenario the binary is traced once to count its K file-system syscalls (open with O_CREAT/O_TRUNC/O_WRONLY, write/pwrite/writev to fd > 2, close of fd > 2, rename*, unlink*, mkdir*, chmod/chown/utimens*, symlink*, link*, truncate, fsync, all threads and child processes in global order) and then EVERY k = 1..K is executed: the tree is restored, the run is repeated under ptrace and the whole process is killed (SIGKILL) at the entry of the k-th such syscall, i.e. with the disk in the state after the (k-1)-th; oracle = invariant over the frozen disk: for every input file either its path holds the complete original bytes, or <name>.bak holds them, or its path holds the complete new output; files that are only read are unchanged and have no .bak; no other pre-existing file changed; exhaustive over k per scenario; non-trivial = a kill strictly after the first and before the last file-system change of the run"
+const rule = "cases = (scenario, k): scenarios are in-place file, in-place tree (sequential -v and the default worker pool), separate output file, output directory, bundle (also onto any one of its inputs: the result then equals the same bundle written elsewhere), in-place with a foreign <name>.bak already present (the run refuses, nothing changes) and --sync invocations over files of all types with sizes 0 B, small, 64 KB+1 and 1 MB, incl. files the minifier rejects; for every scenario the binary is traced once to count its K file-system syscalls (open with O_CREAT/O_TRUNC/O_WRONLY, write/pwrite/writev to fd > 2, close of fd > 2, rename*, unlink*, mkdir*, chmod/chown/utimens*, symlink*, link*, truncate, fsync, all threads and child processes in global order) and then EVERY k = 1..K is executed: the tree is restored, the run is repeated under ptrace and the whole process is killed (SIGKILL) at the entry of the k-th such syscall, i.e. with the disk in the state after the (k-1)-th; oracle = invariant over the frozen disk: for every input file either its path holds the complete original bytes, or <name>.bak holds them, or its path holds the complete new output; files that are only read are unchanged and have no .bak; no other pre-existing file changed; exhaustive over k per scenario; non-trivial = a kill strictly after the first and before the last file-system change of the run"
 
 func content(kind string, size int) string {
 	unit := map[string]string{
@@ -231,7 +231,7 @@ func roles(sc Scenario) (inputs map[string]bool, inplace bool) {
 		}
 	}
 	_ = out
-	return inputs, sc.Shape == "inplace-file" || sc.Shape == "inplace-file-abs" || sc.Shape == "inplace-long-name" || sc.Shape == "sync-onto-self" || sc.Shape == "inplace-via-link" || sc.Shape == "inplace-tree" || sc.Shape == "inplace-tree-pool" || sc.Shape == "bundle-onto-input"
+	return inputs, sc.Shape == "inplace-file" || sc.Shape == "inplace-file-abs" || sc.Shape == "inplace-long-name" || sc.Shape == "inplace-bak-exists" || sc.Shape == "sync-onto-self" || sc.Shape == "inplace-via-link" || sc.Shape == "inplace-tree" || sc.Shape == "inplace-tree-pool" || sc.Shape == "bundle-onto-input"
 }
 
 func invariant(sc Scenario, orig, final, frozen fsState) error {
@@ -310,6 +310,26 @@ func checkScenario(sc Scenario) (boundaries int, interior int, err error) {
 			}
 		}
 	}
+	if sc.Shape == "bundle-onto-input" {
+		// a bundle written onto one of its sources holds what the same bundle holds when it is written somewhere else
+		sc2 := sc
+		sc2.Shape = "bundle"
+		sc2.Args = append([]string{}, sc.Args...)
+		dst := ""
+		for i, a := range sc2.Args {
+			if a == "-o" {
+				dst = sc2.Args[i+1]
+				sc2.Args[i+1] = "elsewhere" + filepath.Ext(dst)
+			}
+		}
+		other, _, err := execute(sc2, 0)
+		if err != nil {
+			return K, 0, err
+		}
+		if want := other.state["elsewhere"+filepath.Ext(dst)]; !bytes.Equal(final[dst], want) {
+			return K, 0, fmt.Errorf("after the complete run the bundle written onto its source %s holds %d bytes, the same bundle written to another file holds %d bytes\n--- command: minify %s\n--- onto the source:\n%.300q\n--- elsewhere:\n%.300q\n--- syscalls:\n%s", dst, len(final[dst]), len(want), strings.Join(sc.Args, " "), final[dst], want, full.log)
+		}
+	}
 	// nothing lost
 	if e := invariant(sc, orig, final, final); e != nil {
 		return K, 0, fmt.Errorf("after the complete run: %v\n--- command: minify %s\n--- syscalls:\n%s", e, strings.Join(sc.Args, " "), full.log)
@@ -363,7 +383,7 @@ func genScenario(t *rapid.T) Scenario {
 	// a bystander that no invocation touches
 	files = append(files, File{Path: "bystander.txt", Kind: "txt", Size: 100, Mode: 0o644})
 	sc := Scenario{Files: files}
-	sc.Shape = rapid.SampledFrom([]string{"inplace-file", "inplace-file", "inplace-via-link", "inplace-tree", "inplace-tree-pool", "separate-file", "out-dir", "bundle", "bundle-onto-input", "sync", "sync-onto-self", "sync-onto-self", "inplace-file-abs", "inplace-long-name"}).Draw(t, "shape")
+	sc.Shape = rapid.SampledFrom([]string{"inplace-file", "inplace-file", "inplace-via-link", "inplace-tree", "inplace-tree-pool", "separate-file", "out-dir", "bundle", "bundle-onto-input", "sync", "sync-onto-self", "sync-onto-self", "inplace-file-abs", "inplace-long-name", "inplace-bak-exists", "bundle-onto-input"}).Draw(t, "shape")
 	if sc.Shape == "inplace-long-name" {
 		// <name>.bak is longer than a file name may be: the backup cannot be made, the run has to fail and leave the file alone
 		files[0].Path = filepath.Join(filepath.Dir(files[0].Path), strings.Repeat("n", 255-len(filepath.Ext(files[0].Path))-rapid.IntRange(0, 3).Draw(t, "shorter"))+filepath.Ext(files[0].Path))
@@ -377,9 +397,19 @@ func genScenario(t *rapid.T) Scenario {
 		files = append(files, File{Path: "src/notes.txt", Kind: "txt", Size: 300, Mode: 0o644})
 		sc.Files = files
 	}
+	if sc.Shape == "bundle-onto-input" && rapid.IntRange(0, 3).Draw(t, "extra") != 0 {
+		// at least two sources of one type
+		files = append(files, File{Path: "src/extra." + extOf[files[0].Kind], Kind: files[0].Kind, Size: rapid.SampledFrom([]int{200, 3000}).Draw(t, "extrasize"), Mode: 0o644})
+		sc.Files = files
+	}
+	if sc.Shape == "inplace-bak-exists" {
+		// somebody else's <name>.bak stands where the backup would go: the run refuses, both files stay as they are
+		files = append(files, File{Path: files[0].Path + ".bak", Kind: "txt", Size: rapid.SampledFrom([]int{0, 120}).Draw(t, "baksize"), Mode: 0o644})
+		sc.Files = files
+	}
 	first := files[0].Path
 	switch sc.Shape {
-	case "inplace-file":
+	case "inplace-file", "inplace-bak-exists":
 		sc.Args = []string{"-q", "-o", first, first}
 	case "inplace-via-link":
 		// the same file under another name: a symbolic link to its directory
@@ -402,7 +432,8 @@ func genScenario(t *rapid.T) Scenario {
 		}
 		dst := "bundle." + extOf[files[0].Kind]
 		if sc.Shape == "bundle-onto-input" {
-			dst = same[0]
+			// any of the sources, not only the first
+			dst = same[rapid.IntRange(0, len(same)-1).Draw(t, "bundledst")]
 		}
 		sc.Args = append([]string{"-q", "-b", "-o", dst}, same...)
 	case "sync":
